@@ -180,6 +180,11 @@ func c01Gen(g *core.Gen, emit func(*p2Case)) {
 		ncfg := scen.P2Config{Sizes: []int{11, 6}, Slice: 4, Blocks: 3, Class: "uniq", Names: nm}
 		genP2Deviations(g, ncfg, false, 1, mk(ncfg, 1))
 	}
+	// index files under other base names (ending in characters of the extension, dotted, named like a recovery file)
+	for _, b := range []string{"data", "a", "photos2", "foo.par", "s.par2", "s.vol00+01", "Backup 2"} {
+		bcfg := scen.P2Config{Sizes: []int{11, 6}, Slice: 4, Blocks: 3, Class: "uniq", Base: b}
+		genP2Deviations(g, bcfg, false, 1, mk(bcfg, 1))
+	}
 	// protected files, in a sub-directory, that carry the names of the set's own recovery files (an older copy of the set
 	// kept below it): what is protected and what is a recovery file is decided by where a file lies, not by its base name
 	{
